@@ -3,6 +3,7 @@ symbolic scopes with the recursive generate_expr replaced by a contract stub; th
 the obligations tagged C05."""
 from vlib.runner import Job
 from vlib import genunits as U
+from vlib import genunits_cls as UC
 from vlib.symex import Ob
 
 ASPECT = 'C05'
@@ -69,6 +70,7 @@ def jobs(tier):
                        require_events=['identifiers'],
                        bounds='the whole word list x the keyword file of %s x {as is, lower, capitalize}' % lang,
                        outside=U.OUT))
+    out += UC.jobs(ASPECT, tier, langs)
     return out
 
 
